@@ -562,12 +562,16 @@ type readstringOutcomeX4 struct {
 // [keep, file, string of three bytes] and a scanner stack of two scanners, both reads succeeding.
 // The methods of the scanner are not entered: each call is recorded with the scanner it is made on
 // and what it asks for, told by the signature — () (byte, error) delivers the next byte,
-// ([]byte) (int, error) fills a buffer.  Helpers that take the top of a stack are evaluated in place.
+// ([]byte) (int, error) fills a buffer.  Helpers that take the top of a stack are evaluated in place, and so
+// are scanner methods that exist for readstring alone (a buffer reader that loops over the byte reader, a
+// method that does the skip and the read): then every byte delivered is followed into the operand.
 func (c *Ctx) readstringCellX4(f *ssa.Function) readstringOutcomeX4 {
 	scT := c.typeObj("postscript", "scanner")
 	var o readstringOutcomeX4
 	var ev *ssaEval
 	var operand sv
+	var nextBytes []sv // what the single-byte reader delivered, in order
+	own := c.privateHelpersB(f)
 	ev = c.cipherEvalB(func(call ssa.CallInstruction, args []sv) (sv, bool) {
 		if call == nil {
 			if len(args) == 2 && strings.HasPrefix(args[0].s, "typeassert:") {
@@ -580,6 +584,11 @@ func (c *Ctx) readstringCellX4(f *ssa.Function) readstringOutcomeX4 {
 		}
 		sc := call.Common().StaticCallee()
 		if sc == nil || sc.Signature.Recv() == nil || !pointsTo(sc.Signature.Recv().Type(), scT) || len(args) == 0 {
+			return sv{}, false
+		}
+		if own[sc] {
+			// a piece of the operator that became a scanner method of its own (whatever its signature)
+			// is evaluated in place: what counts is what it asks of the scanner's shared readers
 			return sv{}, false
 		}
 		res, par := sc.Signature.Results(), sc.Signature.Params()
@@ -595,7 +604,8 @@ func (c *Ctx) readstringCellX4(f *ssa.Function) readstringOutcomeX4 {
 		switch {
 		case par.Len() == 0 && res.Len() == 2 && isByte(res.At(0).Type()) && isErr(res.At(1).Type()):
 			o.calls = append(o.calls, scannerCallX4{args[0].s, "next byte"})
-			return sv{k: svTuple, tup: []sv{intV(' '), {k: svNil}}}, true
+			nextBytes = append(nextBytes, symV(fmt.Sprintf("in%d", len(nextBytes))))
+			return sv{k: svTuple, tup: []sv{nextBytes[len(nextBytes)-1], {k: svNil}}}, true
 		case par.Len() == 1 && isBytes(par.At(0).Type()) && res.Len() == 2 && isIntTypeB(res.At(0).Type()) && isErr(res.At(1).Type()):
 			what := "read into the operand"
 			if len(args) < 2 || args[1].k != svList || args[1].s != operand.s || args[1].i != operand.i || args[1].n != operand.n {
@@ -618,6 +628,25 @@ func (c *Ctx) readstringCellX4(f *ssa.Function) readstringOutcomeX4 {
 	ev.mem["intp."+c.fld("intp.scanners")] = ev.newList([]sv{{k: svAddr, s: "scanner0"}, {k: svAddr, s: "scanner1"}})
 	ret := ev.runFunc(f, []sv{{k: svAddr, s: "intp"}})
 	o.why = ev.why
+	// the buffer reader evaluated in place (it exists for readstring alone): byte by byte it has the same
+	// effect as one read into the operand iff the first byte delivered is dropped and the following
+	// len(operand) bytes are stored into the operand in the order of delivery
+	if el, ok := ev.elems(operand); ok && o.why == "" && int64(len(nextBytes)) == operand.n+1 && len(o.calls) == len(nextBytes) {
+		same := true
+		for i, x := range el {
+			if x.k != svSym || x.s != nextBytes[i+1].s {
+				same = false
+			}
+		}
+		for _, k := range o.calls {
+			if k.what != "next byte" || k.on != o.calls[0].on {
+				same = false
+			}
+		}
+		if same {
+			o.calls = []scannerCallX4{o.calls[0], {o.calls[0].on, "read into the operand"}}
+		}
+	}
 	switch {
 	case len(ret) == 1:
 		o.ret = ret[0]
